@@ -42,6 +42,12 @@ def directed():
         base({"9": {"kind": "nest", "tock": 0.0, "always": True, "kids": [1, 2, 3]},
               "1": {"kind": "func", "script": [Y(), Y(es=[["rem", 9, [1]]]), Y(), Y(), Y(), Y(), R()]},
               "2": {"kind": "doer", "script": [Y(), Y(), Y(), Y(es=[["rem", 9, [3]]]), Y(), R()]}, "3": {"kind": "func", "script": long}}, [9]),
+        # a failing extend adds nothing: 1 extends the root with [3, 4], 4 raises in its enter; same inside an always DoDoer
+        base({"1": {"kind": "func", "script": [Y(), Y(es=[["ext", 0, [3, 4]]]), Y(), R()]}, "2": {"kind": "doer", "script": long},
+              "3": {"kind": "func", "script": [Y(), Y(), R()]}, "4": {"kind": "doer", "script": [{"es": [], "out": ["x"]}]}}, [1, 2]),
+        base({"9": {"kind": "nest", "tock": 0.0, "always": True, "kids": [1, 2]},
+              "1": {"kind": "func", "script": [Y(), Y(es=[["ext", 9, [3, 4]]]), Y(), R()]}, "2": {"kind": "doer", "script": long},
+              "3": {"kind": "func", "script": [Y(), Y(), R()]}, "4": {"kind": "doer", "script": [{"es": [], "out": ["x"]}]}}, [9]),
         # same step: remove then extend the same doer again (restart)
         base({"1": {"kind": "func", "script": [Y(), Y(es=[["rem", 0, [2]], ["ext", 0, [2]]]), Y(), Y(), R()]}, "2": {"kind": "doer", "script": long}}, [1, 2]),
     ]
@@ -49,7 +55,13 @@ def directed():
 
 def generate(rng, tier):
     n = 1 if tier == "quick" else 14
-    return [sc.gen_dynamic(rng, faults=False, always_p=0.6, tocks=rng.choice(["dyadic", "any"])) for _ in range(600 * n)]
+    out = [sc.gen_dynamic(rng, faults=False, always_p=0.6, tocks=rng.choice(["dyadic", "any"])) for _ in range(600 * n)]
+    # calls that fail (a new doer raises in its enter inside extend) and everything else of the broad stream
+    out += [sc.gen_dynamic(rng, faults=True, always_p=0.6, tocks="dyadic") for _ in range(150 * n)]
+    for p in sc.gen_broad(rng, 150 * n):
+        p["broad"] = True
+        out.append(p)
+    return out
 
 
 def _running_chain(case, caller):
@@ -79,7 +91,11 @@ def check_calls(case, obs):
     for rec in obs["efflog"]:
         t, before, after = rec["target"], rec["before"], rec.get("after")
         if "end" not in rec:
-            continue                     # the call raised: not the subject here
+            # the call raised (a new doer failed in its enter): nothing was added or removed
+            ar = rec.get("after_raise")
+            if rec["kind"] == "ext" and ar is not None and ar != before:
+                errs.append(("members", f"extend({rec['ids']}) on {t} raised but left doers {ar}, before the call {before}"))
+            continue
         if before != members[t]:
             errs.append(("members", f"doers of {t} before call = {before}, added-and-not-removed = {members[t]}"))
         window = tr[rec["start"]:rec["end"]]
@@ -162,7 +178,9 @@ def check_calls(case, obs):
 
 
 def oracle(case, obs):
-    if obs["raised"] not in ("none",):
+    if case.get("broad") and (case.get("again") or case.get("fresh")):
+        return sc.broad_oracle(case, obs)
+    if obs["raised"] not in ("none", "script", "kbd"):
         return f"do() raised: {obs['raised']}"
     errs = check_calls(case, obs)
     if errs:
